@@ -490,7 +490,7 @@ func child(args []string) int {
 	full := vk.NewRunNoCleanup("C03", args[2], Level)
 	jobs, err := buildJobs(full)
 	if err != nil {
-		r.Violation("producer", err.Error(), nil)
+		r.Inconclusive("the aggregator producing the reference chain failed (not this property's business): " + err.Error())
 		return 0
 	}
 	var wg sync.WaitGroup
@@ -513,6 +513,33 @@ func child(args []string) int {
 	}
 	close(ch)
 	wg.Wait()
+	if shard == 1%n {
+		// forged transaction data over P2P (p2pdata.go)
+		r.Journal(map[string]any{"p2p_forged_data": true})
+		prng := full.Rand("p2p-data")
+		id := 0
+		for _, shape := range []string{"xxx", "exxe", "xexx", "xxexx"} {
+			p, err := world.ProduceChain(context.Background(), buildSpecC03(shape), world.NewKeys("proposer"))
+			if err != nil {
+				r.Inconclusive("the aggregator producing the reference chain failed (not this property's business): " + err.Error())
+				break
+			}
+			for i := range p.Heights {
+				if len(p.Txs[i]) == 0 {
+					continue
+				}
+				for _, kind := range forgedDataKinds {
+					for _, via := range []string{"p2p", "da"} {
+						c := p2pDataCase{ID: id, Shape: shape, Target: i, Kind: kind, HdrVia: via, Restart: prng.Intn(3) == 0}
+						id++
+						r.Journal(map[string]any{"p2p_forged_data_case": c})
+						runP2PData(r, p, c, prng.Int63())
+					}
+				}
+			}
+			r.FlushHits()
+		}
+	}
 	if shard == 0 {
 		r.Journal(map[string]any{"light_node": true})
 		lightNode(r, world.NewKeys("proposer"), world.NewKeys("attacker"))
@@ -524,11 +551,11 @@ func child(args []string) int {
 // Run is the check entry point.
 func Run(r *vk.Run) {
 	world.Silence()
-	r.Rule = "differential runs of a real full node (all loops) on the same delivery schedule with and without adversarial items built without the proposer's private key: " + strings.Join(Kinds, ", ") + "; ingress DA (same DA height as genuine blobs, before or after them, or empty DA heights) and P2P header store; positions before/at/after the genuine item of the same height; chains with empty and non-empty blocks; optionally the genuine data never reaches DA (so a forged copy of it must not advance DA inclusion). End states (blocks, state, DA-included height, recorded DA heights, execution and SetFinal logs) must be equal, no loop may have terminated for DA-borne material, every stored header must verify under the harness's copy of the proposer key, no DA-included mark for foreign hashes; cases run in child processes (a process killed by adversarial bytes is a violation). Plus the header-only node: real go-header Store+Syncer behind subscriber/exchange doubles (clause light-node-store). non-trivial = at least one adversarial item and the genuine run applied at least one block; distinct by (chain shape, kinds, ingress, schedule)"
+	r.Rule = "differential runs of a real full node (all loops) on the same delivery schedule with and without adversarial items built without the proposer's private key: " + strings.Join(Kinds, ", ") + "; ingress DA (same DA height as genuine blobs, before or after them, or empty DA heights) and P2P header store; positions before/at/after the genuine item of the same height; chains with empty and non-empty blocks; optionally the genuine data never reaches DA (so a forged copy of it must not advance DA inclusion). End states (blocks, state, DA-included height, recorded DA heights, execution and SetFinal logs) must be equal, no loop may have terminated for DA-borne material, every stored header must verify under the harness's copy of the proposer key, no DA-included mark for foreign hashes; cases run in child processes (a process killed by adversarial bytes is a violation). Plus forged transaction data over P2P: a data item with the genuine metadata of block h and other / extra / fewer / reordered transactions sits in the P2P data store before the genuine header of h arrives (over P2P or DA), the genuine data follows over DA, optionally a clean restart in between: nothing the node applies may differ from the proposer's block (clause only-proposer-key; whether the node then still advances is recorded, not judged: the statement promises liveness for DA-borne material). Plus the header-only node: real go-header Store+Syncer behind subscriber/exchange doubles (clause light-node-store). non-trivial = at least one adversarial item and the genuine run applied at least one block; distinct by (chain shape, kinds, ingress, schedule)"
 	r.Assume("adversary has no access to the proposer's private key; items are delivered through the node's own DA scan / P2P store loops, not through libp2p gossip")
 	jobs, err := buildJobs(r)
 	if err != nil {
-		r.Violation("producer", err.Error(), nil)
+		r.Inconclusive("the aggregator producing the reference chain failed (not this property's business): " + err.Error())
 		return
 	}
 	shards := 8
